@@ -164,12 +164,171 @@ end DoltVerif.C36
 
 namespace DoltVerif.C36
 open DoltVerif.SqlEscape
-/-- **not proved** (kept as the full statement): a whole tuple over NULL / integers / strings /
-binary values written by `SqlRowAsTupleString` is read back cell by cell.  The per-literal theorems
-above are its string/binary cases; the integer case (decimal digits) and the tuple structure are
-modelled (`fmtRow`, `parseRow`) and exercised by the examples below and by the `dump` harness. -/
-def row_roundtrip_full : Prop :=
-  ∀ (r : List Cell) (rest : Bytes), parseRow (fmtRow r ++ rest) = some (r, rest)
+-- ---------------------------------------------------------------- decimal digits
+
+theorem digit_facts : ∀ d, d < 10 → isDigit (UInt8.ofNat (48 + d)) = true ∧ (UInt8.ofNat (48 + d)).toNat - 48 = d ∧
+    UInt8.ofNat (48 + d) ≠ 78 ∧ UInt8.ofNat (48 + d) ≠ 45 ∧ UInt8.ofNat (48 + d) ≠ 39 ∧ UInt8.ofNat (48 + d) ≠ 41 := by decide
+
+def valOf (ds : Bytes) (acc : Nat) : Nat := ds.foldl (fun a c => a * 10 + (c.toNat - 48)) acc
+
+theorem scanDigits_append : ∀ (ds : Bytes) (rest : Bytes) (acc : Nat), (∀ c ∈ ds, isDigit c = true) →
+    (∀ c r, rest = c :: r → isDigit c = false) → scanDigits (ds ++ rest) acc = (valOf ds acc, rest)
+  | [], rest, acc, _, hr => by
+    cases rest with
+    | nil => simp [scanDigits, valOf]
+    | cons c r => simp [scanDigits, valOf, hr c r rfl]
+  | d :: ds, rest, acc, hd, hr => by
+    simp only [List.cons_append, scanDigits, hd d (by simp), if_true, valOf, List.foldl_cons]
+    exact scanDigits_append ds rest _ (fun c hc => hd c (by simp [hc])) hr
+
+theorem natDigits_spec : ∀ n : Nat, (∀ c ∈ natDigits n, isDigit c = true) ∧ valOf (natDigits n) 0 = n ∧
+    (∃ d ds, natDigits n = UInt8.ofNat (48 + d) :: ds ∧ d < 10 ∧ (d = 0 → ds = [])) := by
+  intro n
+  induction n using Nat.strongRecOn with
+  | _ n ih =>
+    rw [natDigits]
+    by_cases h : n < 10
+    · obtain ⟨h1, h2, _⟩ := digit_facts n h
+      simp only [h, if_true, List.mem_singleton, forall_eq, h1, valOf, List.foldl_cons, List.foldl_nil, h2, Nat.zero_mul,
+        Nat.zero_add, true_and]
+      exact ⟨n, [], rfl, h, fun _ => rfl⟩
+    · simp only [h, if_false]
+      obtain ⟨ih1, ih2, d, ds, ih3, hd, hz⟩ := ih (n / 10) (by omega)
+      obtain ⟨h1, h2, _⟩ := digit_facts (n % 10) (by omega)
+      refine ⟨?_, ?_, ?_⟩
+      · intro c hc
+        simp only [List.mem_append, List.mem_singleton] at hc
+        rcases hc with hc | rfl
+        · exact ih1 c hc
+        · exact h1
+      · simp only [valOf, List.foldl_append, List.foldl_cons, List.foldl_nil] at ih2 ⊢
+        rw [ih2, h2]; omega
+      · refine ⟨d, ds ++ [UInt8.ofNat (48 + n % 10)], by rw [ih3]; rfl, hd, ?_⟩
+        intro hd0
+        -- a leading zero is impossible: n / 10 ≥ 1
+        exfalso
+        have := hz hd0
+        rw [ih3, this, hd0] at ih2
+        simp [valOf] at ih2
+        omega
+
+/-- what follows a value inside a tuple -/
+def sep (c : UInt8) : Prop := c = 44 ∨ c = 41
+
+theorem sep_facts {c : UInt8} (h : sep c) : isDigit c = false ∧ ¬ digitVal c < 16 ∧ isLetter c = false ∧
+    isConcatQuote c = false ∧ isBlank c = false ∧ c ≠ 120 := by
+  rcases h with rfl | rfl <;> decide
+
+theorem parseCell_fmt (cell : Cell) (c : UInt8) (hc : sep c) (rest : Bytes) :
+    parseCell (fmtCell cell ++ c :: rest) = some (cell, c :: rest) := by
+  obtain ⟨hcd, hcx, hcl, hcq, hcb, hc120⟩ := sep_facts hc
+  cases cell with
+  | null => simp [fmtCell, nullText, parseCell]
+  | str s =>
+    have hf : follows (c :: rest) = true := by simp [follows, dropBlanks, hcb, hcq]
+    have := lex_quote s (c :: rest) hf
+    simp only [dropBlanks, hcb, Bool.false_eq_true, if_false] at this
+    have hq : quote s ++ c :: rest = 39 :: (quoteBody s ++ 39 :: c :: rest) := by simp [quote]
+    simp only [fmtCell]
+    rw [hq] at this ⊢
+    simp only [parseCell, this]
+    simp
+  | bin b =>
+    have := hex_roundtrip b (c :: rest) (by
+      intro c' r' h; cases h; exact ⟨hcx, hcl⟩)
+    have hq : hexEncode b ++ c :: rest = 48 :: 120 :: (hexBody b ++ c :: rest) := by simp [hexEncode]
+    simp only [fmtCell]
+    rw [hq] at this ⊢
+    simp only [parseCell, this]
+    simp
+  | int i =>
+    cases i with
+    | ofNat n =>
+      obtain ⟨hall, hval, d, ds, hds, hd, hz⟩ := natDigits_spec n
+      obtain ⟨h1, _, h78, h45, h39, _⟩ := digit_facts d hd
+      have hscan := scanDigits_append (natDigits n) (c :: rest) 0 hall (by intro c' r' h; cases h; exact hcd)
+      simp only [fmtCell, intText]
+      rw [hds] at hscan ⊢
+      simp only [List.cons_append, parseCell, h78, h45, h39, if_false, h1, if_true]
+      have hnothex : (UInt8.ofNat (48 + d) = 48 && (ds ++ c :: rest).head? = some 120) = false := by
+        by_cases hd0 : d = 0
+        · have := hz hd0; subst this; simp [hc120]
+        · have hne48 : UInt8.ofNat (48 + d) ≠ 48 := by
+            intro e
+            have := (digit_facts d hd).2.1
+            rw [e] at this
+            simp at this; omega
+          have hdec : decide (UInt8.ofNat (48 + d) = 48) = false := decide_eq_false hne48
+          rw [hdec, Bool.false_and]
+      simp only [hnothex, Bool.false_eq_true, if_false]
+      simp only [List.cons_append] at hscan
+      rw [hscan, ← hds, hval]
+    | negSucc n =>
+      obtain ⟨hall, hval, d, ds, hds, hd, _⟩ := natDigits_spec (n + 1)
+      obtain ⟨h1, _⟩ := digit_facts d hd
+      have hscan := scanDigits_append (natDigits (n + 1)) (c :: rest) 0 hall (by intro c' r' h; cases h; exact hcd)
+      simp only [fmtCell, intText, List.cons_append, parseCell]
+      simp only [show ¬ ((45 : UInt8) = 78) by decide, if_false, if_true]
+      rw [hds] at hscan ⊢
+      simp only [List.cons_append, h1, if_true] at hscan ⊢
+      rw [hscan, ← hds, hval]
+      simp only [Option.some.injEq, Prod.mk.injEq, and_true]
+      congr 1
+
+theorem fmtCell_head (cell : Cell) : ∃ b bs, fmtCell cell = b :: bs ∧ b ≠ 41 := by
+  cases cell with
+  | null => exact ⟨78, _, rfl, by decide⟩
+  | str s => exact ⟨39, _, rfl, by decide⟩
+  | bin b => exact ⟨48, _, rfl, by decide⟩
+  | int i =>
+    cases i with
+    | ofNat n =>
+      obtain ⟨_, _, d, ds, hds, hd, _⟩ := natDigits_spec n
+      exact ⟨_, ds, by simp [fmtCell, intText, hds], (digit_facts d hd).2.2.2.2.2⟩
+    | negSucc n => exact ⟨45, _, rfl, by decide⟩
+
+theorem len_join : ∀ (cells : List Cell) (cell : Cell), cells.length < (joinComma ((cell :: cells).map fmtCell)).length
+  | [], cell => by
+    obtain ⟨b, bs, hb, _⟩ := fmtCell_head cell
+    simp [joinComma, hb]
+  | c2 :: cs, cell => by
+    have ih := len_join cs c2
+    simp only [List.map_cons, joinComma, List.length_append, List.length_cons] at ih ⊢
+    omega
+
+theorem parseCells_fmt : ∀ (cells : List Cell) (cell : Cell) (rest : Bytes) (fuel : Nat), cells.length < fuel →
+    parseCells fuel (joinComma ((cell :: cells).map fmtCell) ++ 41 :: rest) = some (cell :: cells, rest)
+  | [], cell, rest, fuel, hf => by
+    obtain ⟨f, rfl⟩ : ∃ f, fuel = f + 1 := ⟨fuel - 1, by omega⟩
+    simp only [List.map_cons, List.map_nil, joinComma, parseCells, parseCell_fmt cell 41 (Or.inr rfl) rest]
+    simp
+  | c2 :: cs, cell, rest, fuel, hf => by
+    obtain ⟨f, rfl⟩ : ∃ f, fuel = f + 1 := ⟨fuel - 1, by omega⟩
+    have ih := parseCells_fmt cs c2 rest f (by simp at hf; omega)
+    simp only [List.map_cons, joinComma, List.append_assoc, List.cons_append] at ih ⊢
+    simp only [parseCells, parseCell_fmt cell 44 (Or.inl rfl) _]
+    simp only [if_true, ih, Option.map_some]
+
+/-- **`row_roundtrip`** — a whole tuple over NULL / integers / strings / binary values written by
+`SqlRowAsTupleString` is read back cell by cell, whatever follows the closing parenthesis. -/
+theorem row_roundtrip (r : List Cell) (rest : Bytes) : parseRow (fmtRow r ++ rest) = some (r, rest) := by
+  cases r with
+  | nil => simp [fmtRow, joinComma, parseRow]
+  | cons cell cells =>
+    obtain ⟨b, bs, hb, hne⟩ := fmtCell_head cell
+    have hjoin : ∃ tl, joinComma ((cell :: cells).map fmtCell) = b :: tl := by
+      cases cells with
+      | nil => exact ⟨bs, by simp [joinComma, hb]⟩
+      | cons c2 cs => exact ⟨bs ++ 44 :: joinComma ((c2 :: cs).map fmtCell), by simp [joinComma, hb]⟩
+    obtain ⟨tl, htl⟩ := hjoin
+    have hp := parseCells_fmt cells cell rest ((joinComma ((cell :: cells).map fmtCell) ++ 41 :: rest).length + 1) (by
+      have := len_join cells cell
+      simp only [List.length_append, List.length_cons]; omega)
+    simp only [fmtRow, List.cons_append, List.append_assoc, List.singleton_append, parseRow, if_true]
+    rw [htl] at hp ⊢
+    simp only [List.cons_append, hne, if_false] at hp ⊢
+    exact hp
+
 
 example : parseRow (fmtRow [.int (-42), .str [39, 92, 0], .null, .bin [], .bin [255], .int 0] ++ [59]) =
     some ([.int (-42), .str [39, 92, 0], .null, .bin [], .bin [255], .int 0], [59]) := by decide +kernel
